@@ -92,7 +92,7 @@ class RaggedArray(IndexableArray, np.lib.mixins.NDArrayOperatorsMixin):
     def __init__(self, data: npt.ArrayLike, shape: ShapeLike = None, dtype: npt.DTypeLike = None, safe_mode: bool = True):
         if shape is None:
             data, shape = self._from_array_list(data, dtype)
-        elif isinstance(shape, (ViewBase, RaggedView2)):
+        elif isinstance(shape, (RaggedView, RaggedView2)):
             shape = shape
         else:
             shape = RaggedShape.asshape(shape)
@@ -248,7 +248,7 @@ class RaggedArray(IndexableArray, np.lib.mixins.NDArrayOperatorsMixin):
             dtype = self.dtype
         data = self._shape.broadcast_values(values, dtype=dtype)
         assert data.dtype == dtype, (values.dtype, data.dtype, dtype)
-        return RaggedArray(data, self._shape)
+        return RaggedArray(data, self._shape, safe_mode=False)  # data has a single element for one-row arrays
 
     def _reduce(self, ufunc, ra, axis=0, **kwargs):
         assert axis in (
